@@ -140,16 +140,50 @@ func (d *Discharger) one(o *Obligation) {
 	q := &Query{Name: o.Name, Assumes: o.Assumes, Goal: o.Goal}
 	d.mu.Lock()
 	text := q.SMTText(true)
+	var itext string
+	if o.Kind != "cover" {
+		if ia, ig, any := instantiate(o.Assumes, o.Goal); any {
+			iq := &Query{Name: o.Name + " [finite instantiation]", Assumes: ia, Goal: ig}
+			itext = iq.SMTText(true)
+		}
+	}
 	d.mu.Unlock()
 	h := sha1.Sum([]byte(text))
 	file := filepath.Join(d.Dir, fmt.Sprintf("%x.smt2", h[:8]))
 	os.WriteFile(file, []byte(text), 0o644)
+	var cand *solveResult
+	if itext != "" && len(itext) < 400_000 {
+		ifile := filepath.Join(d.Dir, fmt.Sprintf("%x.inst.smt2", h[:8]))
+		os.WriteFile(ifile, []byte(itext), 0o644)
+		ir, _ := race(ifile, 5, false)
+		d.mu.Lock()
+		d.SolverTime += ir.Time
+		d.mu.Unlock()
+		if ir.Answer == "unsat" {
+			o.Status = "discharged"
+			o.Backend = ir.Backend + "+inst"
+			o.Time = ir.Time
+			o.Note = ifile
+			d.mu.Lock()
+			d.Stats[o.Backend]++
+			d.mu.Unlock()
+			return
+		}
+		if ir.Answer == "sat" {
+			c := ir
+			cand = &c
+		}
+	}
 	if len(text) > 400_000 {
 		o.Status = "unknown"
 		o.Note = fmt.Sprintf("VC size %d exceeds the 400 kB cap", len(text))
 		return
 	}
-	r, all := race(file, d.Timeout, d.All)
+	tmo := d.Timeout
+	if cand != nil && !d.All && tmo > 4 {
+		tmo = 4 // a candidate counterexample exists already; do not wait long for the full query
+	}
+	r, all := race(file, tmo, d.All)
 	o.Backend = r.Backend
 	o.Time = r.Time
 	d.mu.Lock()
@@ -197,8 +231,14 @@ func (d *Discharger) one(o *Obligation) {
 		o.Status = "failed"
 		o.Model = r.Output
 	default:
-		o.Status = "unknown"
-		o.Model = r.Output
+		if cand != nil {
+			o.Status = "failed"
+			o.Backend = cand.Backend + "+inst"
+			o.Model = "; candidate counterexample from the finitely instantiated query (the full query was undecided)\n" + cand.Output
+		} else {
+			o.Status = "unknown"
+			o.Model = r.Output
+		}
 	}
 	d.mu.Lock()
 	d.Stats[o.Backend]++
